@@ -108,7 +108,7 @@ Proof. apply list_eqb_refl. intros r _. apply row_same_refl. Qed.
 
 Lemma val_same_refl v : val_same v v = true.
 Proof.
-  destruct v as [|f|r|l|z|s|m|g|f seen]; cbn [val_same].
+  destruct v as [|f|r|l|z|s|m|g|f seen|n cs]; cbn [val_same].
   - reflexivity.
   - apply frame_same_refl.
   - apply row_same_refl.
@@ -118,6 +118,7 @@ Proof.
   - apply list_eqb_refl. intros kx _. now rewrite str_eqb_refl, fl_same_refl.
   - apply list_eqb_refl. intros kr _. now rewrite cell_same_refl, rows_same_refl.
   - now rewrite frame_same_refl, rows_same_refl.
+  - now rewrite str_eqb_refl, cells_same_refl.
 Qed.
 
 Lemma out_same_refl o : out_same o o = true.
@@ -792,7 +793,8 @@ Definition aligned_unchecked (o : op) : bool :=
   match o with
   | OJoin _ _ _ _ | OAdd _ _ _ | OApply _ _ _ | ODescribe _ | OResample _ _ _ _ | OGroupAgg _ _ _ _
   | OFromCSV _ | OCsvRoundTrip _ | OGroupby _ _ | OToCSV _ | ORow _ _ | OColumnNames _ | ONrows _
-  | ONcols _ | OAgg _ _ => true
+  | ONcols _ | OAgg _ _ | OString _ | OSelect _ _ | OColAt _ _ _ | OSeries _ _ _
+  | OPlot _ _ _ _ _ _ | OGroupbyOther _ _ => true
   | _ => false
   end.
 
@@ -820,7 +822,7 @@ Proof.
   intros Hp Hok.
   destruct o as [i n|i n|i a b|i keep|i labels cols|i rws cls|i names|i by_ asc|i n
                 |i has_opt subset keep|k i j key|i j fill|i fn axis|i|i tcol freq agg|i gk a cols|b|i
-                |i gk|i|i n|i|i|i|i k|i r|i n|i v|i|i cn ty|i cn layout|i a b|i n d|i n|i cn n v
+                |i gk|i|i n|i|i|i|i k|i|i nm|i nm n|i nm n|bar i x y pk rk|i acc|i r|i n|i v|i|i cn ty|i cn layout|i a b|i n d|i n|i cn n v
                 |i subset keep];
     try (apply aligned_trivial; reflexivity); cbn [step].
   - (* Head *) with_src p i Hp f Hf Hwf Hr.
@@ -1123,7 +1125,7 @@ Proof.
   intros Hp Hside.
   destruct o as [i n|i n|i a b|i keep|i labels cols|i rws cls|i names|i by_ asc|i n
                 |i has_opt subset keep|k i j key|i j fill|i fn axis|i|i tcol freq agg|i gk a cols|b|i
-                |i gk|i|i n|i|i|i|i k|i r|i n|i v|i|i cn ty|i cn layout|i a b|i n d|i n|i cn n v
+                |i gk|i|i n|i|i|i|i k|i|i nm|i nm n|i nm n|bar i x y pk rk|i acc|i r|i n|i v|i|i cn ty|i cn layout|i a b|i n d|i n|i cn n v
                 |i subset keep];
     try (rewrite out_same_refl, pool_same_refl; reflexivity).
   cbn [step side_okb] in *. unfold check_sort, with_frame. cbv zeta.
@@ -1156,7 +1158,7 @@ Proof.
   intros Hp Hside Es.
   destruct o as [i n|i n|i a b|i keep|i labels cols|i rws cls|i names|i by_ asc|i n
                 |i has_opt subset keep|k i j key|i j fill|i fn axis|i|i tcol freq agg|i gk a cols|b|i
-                |i gk|i|i n|i|i|i|i k|i r|i n|i v|i|i cn ty|i cn layout|i a b|i n d|i n|i cn n v
+                |i gk|i|i n|i|i|i|i k|i|i nm|i nm n|i nm n|bar i x y pk rk|i acc|i r|i n|i v|i|i cn ty|i cn layout|i a b|i n d|i n|i cn n v
                 |i subset keep]; try reflexivity.
   - (* Shift *) cbn [step side_okb op_source] in *. unfold with_frame in Es.
     destruct (nth_opt p i) as [f|] eqn:Hf; cbn [derive] in Es; injection Es as <- <-; [|reflexivity].
